@@ -1,5 +1,5 @@
 (* C06 — multimap laws of the modelled class, copy / round-trip, independence. *)
-From Coq Require Import List NArith Bool Lia.
+From Coq Require Import List NArith Bool Lia PeanoNat.
 Import ListNotations.
 From TV Require Import C06.Model C06.Spec C06.ProofsBase C06.ProofsRefine C06.ProofsProg.
 Local Open Scope N_scope.
@@ -159,17 +159,36 @@ Proof.
   intros st [r h'] i H. destruct r; simpl; auto. rewrite app_length. simpl.
   split; [apply nth_error_app1; exact H|lia].
 Qed.
-Lemma run_cmd_other : forall c st i, (forall o, c <> On i o) -> (i < length st)%nat ->
+(* the commands that may write to object i (== fills the caches of both operands) *)
+Definition touches (c : cmd) (i : nat) : Prop :=
+  match c with On j _ => j = i | Eq a b => a = i \/ b = i | _ => False end.
+
+Lemma run_cmd_other : forall c st i, ~ touches c i -> (i < length st)%nat ->
   nth_error (snd (run_cmd c st)) i = nth_error st i /\ (length st <= length (snd (run_cmd c st)))%nat.
 Proof.
-  intros c st i Hc Hi. destruct c as [j o|j|t|j]; simpl.
+  intros c st i Hc Hi. destruct c as [j o|j|t|j|l|a b]; simpl in *.
   - destruct (nth_error st j) as [h|]; simpl; auto. destruct (step o h) as [r h']. simpl.
-    rewrite upd_length. split; auto. apply upd_other. intro E. subst j. apply (Hc o). reflexivity.
+    rewrite upd_length. split; auto. apply upd_other. intro E. subst j. apply Hc. reflexivity.
   - destruct (nth_error st j); simpl; auto. apply new_obj_old. exact Hi.
   - apply new_obj_old. exact Hi.
   - destruct (nth_error st j); simpl; auto. apply new_obj_old. exact Hi.
+  - rewrite app_length. simpl. split; [apply nth_error_app1; exact Hi|lia].
+  - assert (Ha : i <> a) by (intro; subst; apply Hc; auto).
+    assert (Hb : i <> b) by (intro; subst; apply Hc; auto).
+    destruct (nth_error st a) as [ha|]; [|simpl; auto]. destruct (nth_error st b) as [hb|]; [|simpl; auto].
+    destruct (items ha) as [ra ha']. 
+    assert (G : forall x, nth_error (upd a x st) i = nth_error st i /\
+                          (length st <= length (upd a x st))%nat).
+    { intros x. rewrite upd_length. split; [apply upd_other; exact Ha|lia]. }
+    destruct ra; try (simpl; apply G).
+    destruct (nth_error (upd a ha' st) b) as [hb1|]; [|simpl; apply G].
+    destruct (items hb1) as [rb hb'].
+    assert (G2 : nth_error (upd b hb' (upd a ha' st)) i = nth_error st i /\
+                 (length st <= length (upd b hb' (upd a ha' st)))%nat).
+    { rewrite !upd_length. split; [rewrite !upd_other by assumption; reflexivity|lia]. }
+    destruct rb; simpl; apply G2.
 Qed.
-Lemma run_cmds_other : forall cs st i, Forall (fun c => forall o, c <> On i o) cs -> (i < length st)%nat ->
+Lemma run_cmds_other : forall cs st i, Forall (fun c => ~ touches c i) cs -> (i < length st)%nat ->
   nth_error (snd (run_cmds cs st)) i = nth_error st i.
 Proof.
   induction cs as [|c cs IH]; intros st i H Hi; simpl; auto.
@@ -178,4 +197,31 @@ Proof.
   destruct (run_cmd c st) as [r st1]. simpl in *.
   specialize (IH st1 i Hcs). destruct (run_cmds cs st1) as [rs st2]. simpl in *.
   rewrite IH by lia. exact H1.
+Qed.
+
+(* ---------- the combined view and == ---------- *)
+Lemma items_combined : forall h, inv h ->
+  fst (items h) = RPairs (map (fun kv => (fst kv, join [c_comma] (snd kv))) (as_list h)) /\
+  abs (snd (items h)) = abs h /\ inv (snd (items h)).
+Proof.
+  intros h Hi. destruct (items_refines h Hi) as [h' [E1 [E2 E3]]]. rewrite E1. simpl. auto.
+Qed.
+Lemma dict_of_NoDup_from : forall (l d : list (text * text)), NoDup (map fst d) ->
+  NoDup (map fst (fold_left (fun (d : list (text * text)) (kv : text * text) => d_set (fst kv) (snd kv) d) l d)).
+Proof.
+  induction l as [|[k v] l IH]; intros d H; simpl; auto. apply IH. apply d_set_NoDup. exact H.
+Qed.
+Lemma dict_eqb_refl : forall a, dict_eqb a a = true.
+Proof.
+  intro a. unfold dict_eqb. rewrite Nat.eqb_refl. simpl. unfold dict_sub.
+  assert (Hn : NoDup (map fst (dict_of a))) by (apply dict_of_NoDup_from; constructor).
+  apply forallb_forall. intros [k v] Hin. simpl.
+  rewrite (nodup_lookup _ _ _ Hn Hin). apply text_eqb_refl.
+Qed.
+(* two objects with the same list store compare equal with the class's own == *)
+Lemma same_store_compare_equal : forall h h', inv h -> inv h' -> as_list h' = as_list h ->
+  exists a, fst (items h) = RPairs a /\ fst (items h') = RPairs a /\ dict_eqb a a = true.
+Proof.
+  intros h h' Hi Hi' E. destruct (items_combined h Hi) as [E1 _]. destruct (items_combined h' Hi') as [E2 _].
+  rewrite E in E2. eexists. split; [exact E1|split; [exact E2|apply dict_eqb_refl]].
 Qed.
